@@ -126,6 +126,54 @@ def run_case(case):
     return res
 
 
+def two_files_case(raise_first):
+    """Two pipelined file_wrapper responses are still queued (stalled client)
+    when the connection is torn down; the first file's close() may raise.
+    Every handed-over file must be closed exactly once."""
+    import io
+
+    env = get_env(False, True)
+    env.activate()
+    files = []
+
+    class F(io.BytesIO):
+        def __init__(self, data, boom):
+            super().__init__(data)
+            self.boom = boom
+            self.closes = 0
+
+        def close(self):
+            self.closes += 1
+            if self.boom and self.closes == 1:
+                raise OSError("close failed")
+            super().close()
+
+    def app(environ, start_response):
+        f = F(b"x" * 40, raise_first and not files)
+        files.append(f)
+        start_response("200 OK", [("Content-Length", "40")])
+        return environ["wsgi.file_wrapper"](f)
+
+    env.app = app
+    del env.escaped[:]
+    del env.disp.worker_exc[:]
+    c = env.connect(pump=True)
+    c.sock.window = 0  # the client does not read
+    c.send(b"GET /0 HTTP/1.1\r\nHost: h\r\n\r\nGET /0 HTTP/1.1\r\nHost: h\r\n\r\n")
+    c.reset()
+    if not c.closed and c.ch is not None:
+        c.ch.handle_close()
+    v = []
+    if len(files) != 2:
+        v.append(("harness:two-files", f"{len(files)} file_wrapper responses were produced, 2 expected"))
+    for i, f in enumerate(files):
+        if f.closes != 1:
+            v.append((f"file-close-count:two-queued:{'first-close-raises' if raise_first else 'plain'}", f"file {i} of two queued file_wrapper responses closed {f.closes} times at teardown"))
+    for e in env.escaped:
+        v.append((f"escaped:{e[1]}", str(e)))
+    return v
+
+
 def judge(case, res):
     v = []
     prog, exc = case["prog"], case["prog"].get("exc")
@@ -265,6 +313,10 @@ def main(tier, only=None):
             n += k
             classes |= cl
             viol += out
+    for rf in (False, True):
+        n += 1
+        for key, what in two_files_case(rf):
+            viol.append((key, what, {"special": "two-files", "raise_first": rf}))
     run.add(states=len(classes), transitions=n, traces_validated_against_impl=n, evaluations=n, distinct_nontrivial=len(classes))
     run.part("cases", total=n)
     for c in items[:3]:
@@ -280,6 +332,11 @@ def main(tier, only=None):
 
 
 def replay(rep):
+    if rep.get("special") == "two-files":
+        v = two_files_case(rep["raise_first"])
+        for k, w in v:
+            print("VIOLATION-DETAIL", k, w)
+        return 1 if v else 0
     case = rep
     p = case["prog"]
     p["chunks"] = [c.encode("latin-1") for c in p["chunks"]]
